@@ -110,15 +110,16 @@ func sanitizersForAttributeValue(c context) ([]string, error) {
 		return reverse(appendIfNotEmpty(ret, sanitizer)), nil
 	}
 	urlAttrValPrefix := c.attr.value
+	if c.attr.ambiguousValue {
+		// This also covers a prefix that is empty in the branch recorded in c.attr.value but not in another one.
+		return nil, fmt.Errorf("actions must not occur after an ambiguous URL prefix in the %q attribute value context of a %q element", c.attr.name, c.element.name)
+	}
 	if urlAttrValPrefix == "" {
 		// Attribute value prefixes in URL or TrustedResourceURL sanitization contexts
 		// must sanitized and normalized.
 		return reverse(appendIfNotEmpty(ret, normalizeURLFuncName, sanitizer)), nil
 	}
 	// Action occurs after a URL or TrustedResourceURL prefix.
-	if c.attr.ambiguousValue {
-		return nil, fmt.Errorf("actions must not occur after an ambiguous URL prefix in the %q attribute value context of a %q element", c.attr.name, c.element.name)
-	}
 	validator, ok := urlPrefixValidators[sc0]
 	if !ok {
 		return nil, fmt.Errorf("cannot validate attribute value prefix %q in the %q sanitization context", c.attr.value, sc0)
